@@ -77,7 +77,7 @@ Fixpoint has_uu (s : str) : bool :=                                             
   match s with c :: t => match t with d :: _ => ((c =? 95) && (d =? 95)) || has_uu t | [] => false end | [] => false end.
 Definition name_bad (n : str) : bool := has_uu n || negb (forallb name_char n).
 
-(* ---------------- the build tag: _build_tag_regex = one or more \d as group 1, then dot-star as group 2, used with .match; int(group 1) ---------------- *)
+(* ---------------- the build tag: _build_tag_regex = one or more \d as group 1, then dot-star (re.DOTALL) as group 2, used with .match; int(group 1) ---------------- *)
 Definition uni_digit_table : list (char * N) := [(1633, 1); (65297, 1)].                         (* U+0661 U+FF11 *)
 Definition uni_digit (c : char) : option N := option_map snd (find (fun p => fst p =? c) uni_digit_table).
 Definition is_d (c : char) : bool := is_digit c || match uni_digit c with Some _ => true | None => false end.      (* \d *)
@@ -85,7 +85,7 @@ Definition to_ascii_digit (c : char) : char := match uni_digit c with Some v => 
 Definition int_of (ds : str) : N := num (map to_ascii_digit ds).                                 (* int() on a run of decimal digits *)
 Definition build_of (b : str) : option (N * str) :=
   let '(ds, rest) := span is_d b in
-  match ds with [] => None | _ => Some (int_of ds, take_line rest) end.
+  match ds with [] => None | _ => Some (int_of ds, rest) end.
 
 (* ---------------- parse_wheel_filename ---------------- *)
 Definition dash : char := 45.
